@@ -556,6 +556,11 @@ func (a *Analyzer) Feed(r *ev.Rec) {
 		}
 	case "harness-error":
 		a.rep.Inconclusive = append(a.rep.Inconclusive, "harness error: "+r.Err)
+	case "foreign-dialer-outcome":
+		a.stat("foreign-dialer:" + r.Kind)
+		if r.Kind == "no-election" {
+			a.find("C20", "foreign-peer-suppresses-elections", "", r.Q, "cluster %d: the leader %d is gone for 40 heartbeat timeouts, but the followers elect nobody while a node of another cluster with the leader's node id keeps dialling them (every attempt is refused at the identity handshake)", r.Cid, r.Nid)
+		}
 	case "pending-action-after-transfer":
 		a.stat("pending-actions-after-failed-transfer:" + r.Kind)
 		if r.Kind == "stuck" {
